@@ -254,3 +254,14 @@ package core
 // the whole name (".." alone passes the validator and is rejected afterwards as a directory).
 //@ lemma includeComponents : [C08] forall s string :: includeNameOK(s) ==> (forall i int, j int :: 0 <= i && i < j && j <= len(s)
 //@      && (i == 0 || s[i-1] == '/') && (j == len(s) || s[j] == '/') && (s[i:j] == "." || s[i:j] == "..") ==> i == 0 && j == len(s))
+
+// The banned set is consulted only where a directive kind is consumed (C18 "the option changes nothing else":
+// any other function reading it fails this frame scan by name).
+//@ readers [C18] JApiCore.bannedDirectives : (*JApiCore).addDirective, (*JApiCore).processInclude, (*JApiCore).addMacro, (*JApiCore).processPasteDirective, WithBannedDirectives$1
+//@ writers [C18] JApiCore.bannedDirectives : WithBannedDirectives$1
+
+// C06 frame scan: the tree links and the context cursor are written only by functions under contract
+//@ writers [C06] directive.Directive.Parent : (*JApiCore).processContext, (directive.Directive).CopyWoParentAndChildren
+//@ writers [C06] directive.Directive.Children : (*directive.Directive).AppendChild, (directive.Directive).CopyWoParentAndChildren
+//@ writers [C06] JApiCore.currentContextDirective : (*JApiCore).processContext, (*JApiCore).closeLastExplicitContext, (*JApiCore).processPaste, (*JApiCore).processDirective
+//@ writers [C06] JApiCore.currentDirective : (*JApiCore).processCurrentDirective, (*JApiCore).setCurrentDirective, NewJApiCore
